@@ -394,3 +394,43 @@ func VH_C06_TransportConcurrent(order int) {
 	}
 	vhReach("c06-transport-concurrent")
 }
+
+// H8: a Batch holds the read lock until Close and must consume exactly its own fetch response: the response ends
+// with a v2 batch whose last record was cut by the broker at the byte limit, at any byte of that record (the
+// message-set size announces what is there); the records are read with Batch.Read into a large buffer; the response
+// to the next call is pipelined right behind. Nothing of the next response ends up in the caller's buffer, the
+// Batch consumes its own frame exactly, and the next call gets its own answer.
+func VH_C06_TruncatedTailThenNext(version int) {
+	vhConcreteClock(true)
+	want := vhInt64("last_offset")
+	k0, v0 := vhBytes("key", 1), vhBytes("value", 2)
+	k1, v1 := vhBytes("key1", 1), vhBytes("value1", 4)
+	recs := []vhRec{{offsetDelta: 0, key: k0, value: v0}, {offsetDelta: 1, key: k1, value: v1}}
+	full := vhEncBatchV2(0, 0, 1, 1600000000000, 1600000000000, 2, recs)
+	first := vhEncBatchV2(0, 0, 0, 1600000000000, 1600000000000, 1, recs[:1])
+	// bytes of the second record that arrive: everything of the batch up to the end of the first record, then
+	// `keep` bytes of the second one (0 <= keep < its length)
+	recLen := len(full) - len(first)
+	keep := vhChoose("bytes_of_the_last_record_delivered", recLen)
+	wire := full[:len(first)+keep]
+	f1 := vhApiVersionsFrame(1, []vhApiRange{{int16(fetch), 0, int16(version)}, {int16(listOffsets), 0, 1}})
+	f2 := vhFetchResponse(2, version, 0, "t", 0, 0, 10, wire)
+	f3 := vhListOffsetsFrame(3, "t", 0, 0, -1, want)
+	fc := &vhFakeConn{data: append(append(append([]byte{}, f1...), f2...), f3...)}
+	c := NewConnWith(fc, ConnConfig{Topic: "t", Partition: 0, ClientID: "vh"})
+	c.Seek(0, SeekAbsolute|SeekDontCheck)
+	b := c.ReadBatchWith(ReadBatchConfig{MinBytes: 1, MaxBytes: 1000})
+	buf := make([]byte, 64)
+	n, err := b.Read(buf)
+	vhAssert(err == nil && n == 2 && vhBytesEq(buf[:2], v0), "complete-record-is-delivered")
+	n2, err2 := b.Read(buf)
+	vhAssert(err2 != nil, "truncated-record-is-not-delivered")
+	if err2 == nil {
+		vhAssert(n2 <= 4 && vhBytesEq(buf[:n2], v1[:n2]), "a-record-that-is-delivered-is-the-stored-one")
+	}
+	b.Close()
+	vhAssert(fc.off-c.rbuf.Buffered() == len(f1)+len(f2), "batch-consumed-exactly-its-own-response")
+	off, lerr := c.ReadLastOffset()
+	vhAssert(lerr == nil && off == want, "next-call-gets-its-own-response")
+	vhReach("c06-truncated-tail-then-next")
+}
